@@ -217,6 +217,13 @@ SHIM_LIST = [
     "concrete receiver when an argument is a proxy (AST rewrite; identical to the native operation when no proxy is involved)",
     "computed subscripts `a[i]`, `d.get(k)` and `k in {set/dict}` with a symbolic int key on a concrete dict / list / tuple / bytes: one fork per dict "
     "key, an ITE mux for tables of small ints, one fork per position otherwise (AST rewrite; native operation when the key is concrete)",
+    "`import struct` / `import array` / `from struct import ...` rebind the imported names to the proxy-aware module at the import statement (AST "
+    "rewrite), so struct.Struct constants created at import time are proxy-aware",
+    "contextlib.suppress never suppresses the engine's / the virtual-time kernel's control exceptions",
+    "module-level data of websocket.* (and the attribute dicts of module-level instances of its classes, e.g. the cookie jar) is put back to its "
+    "post-import state before every explored path",
+    "environment stand-ins (os.urandom, os.environ, hashlib, hmac, base64, ssl, time, threading, selectors, socket, inspect) are bound by identity in "
+    "every loaded websocket.* module and, while a patch is active, in sys.modules",
 ]
 
 _active = False
